@@ -236,6 +236,32 @@ Definition oQ_eqb (a b : option Q) : bool :=
 Definition aexp_agree (m : nat) (a b : aexp) : bool :=
   forallb (fun t => oQ_eqb (aeval t a) (aeval t b)) (grid_rows m).
 
+
+(* syntactic equality of expression trees (constants compared by numerator and denominator):
+   the translator's tree for a derived rate must BE the documented tree *)
+Definition var_eqb (a b : var) : bool :=
+  match a, b with
+  | vTP, vTP | vTN, vTN | vFP, vFP | vFN, vFN | vP, vP | vN, vN | vTotal, vTotal => true
+  | _, _ => false
+  end.
+Definition Q_syn_eqb (a b : Q) : bool := Z.eqb (Qnum a) (Qnum b) && Pos.eqb (Qden a) (Qden b).
+Fixpoint aexp_eqb (a b : aexp) : bool :=
+  match a, b with
+  | AVar x, AVar y => var_eqb x y
+  | AConst p, AConst q => Q_syn_eqb p q
+  | AAdd a1 a2, AAdd b1 b2 | ASub a1 a2, ASub b1 b2 | AMul a1 a2, AMul b1 b2 | ADiv a1 a2, ADiv b1 b2 =>
+      aexp_eqb a1 b1 && aexp_eqb a2 b2
+  | ASqrt a1, ASqrt b1 => aexp_eqb a1 b1
+  | AIfAnyZero zs a1 a2, AIfAnyZero ws b1 b2 =>
+      (fix go (l m : list aexp) : bool :=
+         match l, m with
+         | [], [] => true
+         | x :: l', y :: m' => aexp_eqb x y && go l' m'
+         | _, _ => false
+         end) zs ws && aexp_eqb a1 b1 && aexp_eqb a2 b2
+  | _, _ => false
+  end.
+
 (* ------------------------------------------------------------------ labels-table mode
    lower_id_on_lhs.lower_id_to_left_hand_side + block_from_labels: ids are given as their rank
    in the order of the engine-side id expression (concat(sds,'-__-',uid) or the bare uid) *)
